@@ -1,7 +1,7 @@
 """C09 — generated client and server agree on every request they can express."""
 from . import respfam
 
-THEOREMS = ["Goag.Prim.parseInt_formatInt", "Goag.Prim.parseBool_formatBool", "Goag.Prim.digitsVal_toDigits", "Goag.Prim.parseInts_formatInts", "Goag.Prim.parseBools_formatBools"]
+THEOREMS = ["Goag.Prim.parseInt_formatInt", "Goag.Prim.parseBool_formatBool", "Goag.Prim.digitsVal_toDigits", "Goag.Prim.parseInts_formatInts", "Goag.Prim.parseBools_formatBools", "Goag.Prim.formatInt_lexeme", "Goag.Prim.formatInts_lexemes", "Goag.Prim.formatBool_lexeme"]
 
 
 def check(ctx):
